@@ -96,8 +96,8 @@ func dutydbQueriesRaw(t *testing.T, _ UKind, u core.UnsignedData) []dutydbQuery 
 		}}}
 	case core.SyncContributions:
 		var qs []dutydbQuery
-		for i, c := range v {
-			qs = append(qs, dutydbQuery{fmt.Sprintf("AwaitSyncContribution#%d", i), func(ctx context.Context, db *dutydb.MemDB) (any, error) {
+		for _, c := range v {
+			qs = append(qs, dutydbQuery{"AwaitSyncContribution", func(ctx context.Context, db *dutydb.MemDB) (any, error) {
 				return db.AwaitSyncContribution(ctx, uint64(c.Slot), c.SubcommitteeIndex, c.BeaconBlockRoot)
 			}})
 		}
@@ -452,13 +452,13 @@ func probeParSigDB(t *testing.T, k SKind, sh shares) {
 		o.Leaves = wa.Mutate()
 		v, err := safeCall(later)
 		if err != nil {
-			o.Changed, o.What, o.Err = true, "later store fails after the mutation: "+err.Error(), err.Error()
+			o.Changed, o.Hidden, o.What, o.Err = true, true, "later store fails after the mutation: "+err.Error(), err.Error()
 		} else {
 			wb := WalkValue(v)
 			if d := Diff(want, wb.Snap); d != "" {
-				o.Changed, o.What = true, "share 1 in threshold output"+d
+				o.Changed, o.Hidden, o.What = true, true, "share 1 in threshold output"+d
 			}
-			for _, ov := range Intersect(WalkValue(r.inputs[0]), wb) {
+			for _, ov := range Intersect(wa, wb) {
 				if !ov.Static {
 					o.Overlap++
 					o.OverlapAt = a.Name + ov.A.Path + " ~ threshold output" + ov.B.Path
@@ -541,7 +541,9 @@ func probeAggSigDB(t *testing.T, k SKind, v2 bool) {
 			return
 		}
 		defer done(r)
-		q := func() (any, error) { return bounded(t.Context(), func(ctx context.Context) (core.SignedData, error) { return r.db.Await(ctx, duty, r.pk, r.sub) }) }
+		q := func() (any, error) {
+			return bounded(t.Context(), func(ctx context.Context) (core.SignedData, error) { return r.db.Await(ctx, duty, r.pk, r.sub) })
+		}
 		r1, err := q()
 		if err != nil {
 			skip("%s %s: Await fails: %v", name, k.Name, err)
@@ -555,7 +557,9 @@ func probeAggSigDB(t *testing.T, k SKind, v2 bool) {
 			return
 		}
 		defer done(r)
-		q := func() (any, error) { return bounded(t.Context(), func(ctx context.Context) (core.SignedData, error) { return r.db.Await(ctx, duty, r.pk, r.sub) }) }
+		q := func() (any, error) {
+			return bounded(t.Context(), func(ctx context.Context) (core.SignedData, error) { return r.db.Await(ctx, duty, r.pk, r.sub) })
+		}
 		r1, err1 := q()
 		r2, err2 := q()
 		if err1 != nil || err2 != nil {
@@ -599,7 +603,9 @@ func probeAggSigDB(t *testing.T, k SKind, v2 bool) {
 			skip("%s %s: blocked readers did not both return", name, k.Name)
 			return
 		}
-		q := func() (any, error) { return bounded(t.Context(), func(ctx context.Context) (core.SignedData, error) { return r.db.Await(ctx, duty, r.pk, r.sub) }) }
+		q := func() (any, error) {
+			return bounded(t.Context(), func(ctx context.Context) (core.SignedData, error) { return r.db.Await(ctx, duty, r.pk, r.sub) })
+		}
 		observe(name+".Await(blocked)|Await(blocked)", k.Name, "sibling", Named{"Await reader 1 result", got[0].v},
 			[]Named{{"Await reader 2 result", got[1].v}, {"Store input set", r.set}}, []Reread{{"Await", q}})
 	})
